@@ -237,7 +237,7 @@ PROPS["C06"] = dict(
     rule=("one real node with 0-12 (thorough 0-38) healthy scripted peers (cluster size 2-40), SuspicionMult 1-8, SuspicionMaxTimeoutMult 1-8, probe interval "
           "200ms/1s; the suspicion of a subject starts from an injected accusation (exact start instant) or from the node's own failed probe (start = probe "
           "instant + interval); then a timed script of up to 8 acts - confirmations from distinct peers, repeats, the original accuser, the local node, the "
-          "subject, unknown names, at the current or an older incarnation; refutation; re-suspicion; third-party death; leave; stale death and leave notices (older incarnation: must be ignored altogether); rejoin at the same incarnation after a death (the script continues after a death) - at instants drawn 1-50 ms "
+          "subject, unknown names, at the current or an older incarnation (the last act may be a confirmation naming a newer incarnation than the node holds: it counts, and the suspicion still runs out on schedule); refutation; re-suspicion; third-party death; leave; stale death and leave notices (older incarnation: must be ignored altogether); rejoin at the same incarnation after a death (the script continues after a death) - at instants drawn 1-50 ms "
           "around every analytic deadline (min, max, the timeout after c=0..k confirmations) or uniformly. Oracle: exact-arithmetic model of k, min, max and "
           "the logarithmic schedule; the leave event for the subject must occur within 1 ms of the model's instant (timer expiry, confirmation driving the timer "
           "to zero, foreign death, leave) or never (refuted), and a timer death lies in [min, max] after the start of the suspicion that caused it. "
